@@ -6,7 +6,7 @@ elsewhere (C01/C05); here they are the products that have to follow the signing 
 Import-free (model files only).
 -/
 import KrillModel.Ca.Child
-namespace KM.Ca
+namespace KM.CaK
 open KM.Res
 
 /-- Kind of a signed product of a resource class. -/
@@ -66,4 +66,4 @@ def Ev.rcn? : Ev → Option Rcn
   | .childKeyRevoked _ r _ => some r
   | _ => none
 
-end KM.Ca
+end KM.CaK
